@@ -186,7 +186,7 @@ def diff_fields(got, exp, got_recs, exp_recs):
     return out
 
 
-INV_NAMES = ['wfx', 'cap', 'clk', 'svc', 'srv', 'idle', 'rows', 'blk', 'who']
+INV_NAMES = ['wfx', 'cap', 'clk', 'svc', 'srv', 'idle', 'rows', 'blk', 'who', 'hzn']
 
 
 def check_trace(tr, drv, max_frames=80, mask=None, inv_mask=None):
@@ -212,6 +212,14 @@ def check_trace(tr, drv, max_frames=80, mask=None, inv_mask=None):
             return None
         o = parse(v[1])
         return o if isinstance(o, list) else None
+    # C03: the journey invariant is about the state AND the cumulative record history AND the arrival nodes: all three real
+    hist, spawned = [], []
+    want_jrn = inv_mask is not None and 'jrn' in inv_mask
+
+    def jrn(state):
+        v = drv.ask('m37', sx.dump([ecfg, state, hist, spawned]))
+        return v[1].strip() if v[0] == 'M' else str(v)
+    res['jrn_frames'] = 0
     b0 = invs(enc_state(prev, cfg, nxt, now if isinstance(now, int) else 0))
     res['inv_init'] = b0
     res['inv_frames'] = 0
@@ -282,4 +290,12 @@ def check_trace(tr, drv, max_frames=80, mask=None, inv_mask=None):
                 res['other'] += 1
             else:
                 res['inv_frames'] += 1
+            if want_jrn:
+                hist.extend(norm([enc_rec(e) for e in f['cev'] if e[0] == 'Record']))
+                spawned.extend([[e[2], e[1]] for e in f['cev'] if e[0] == 'Spawn'])
+                jv = jrn(enc_state(prev, cfg, nxt, now))
+                if jv != '1':
+                    res['mismatch'] = {'frame': k + 1, 'what': 'the journey invariant (Journey.jrn_b) does not hold on the real snapshot with the real record history', 'got': jv, 'label': f['label']}
+                    return res
+                res['jrn_frames'] += 1
     return res
